@@ -105,6 +105,8 @@ def _run_cases(res: Result, rng: random.Random, tier: str, fails: list):
             return
         if res.extra.get("search") and len(fails) >= 3:
             raise _Enough((lines, reals))          # a search stops at the first few failing inputs
+        if sum(1 for f in fails if f.get("what", "").startswith("reader spins")) >= 3:
+            raise _Enough((lines, reals))          # every further spinning case would cost its full time budget
         seen.add(line)
         r = frame_real(chunks)
         lines.append(line)
@@ -141,6 +143,20 @@ def _run_cases(res: Result, rng: random.Random, tier: str, fails: list):
                               "label": label, "cuts": [len(c) for c in chunks]})
             else:
                 res.nontrivial.add(hash(line))
+        else:
+            # a frame with a corrupt length field somewhere: whatever happens from there on, every well-formed frame in
+            # front of it is delivered (once, in order), however the stream is cut
+            want = []
+            for k, f in frames:
+                if k == "good":
+                    h = gen.rfc_parse_header(f)
+                    want.append(f"{h[3]}:{h[5]}:{h[6]}:{h[1]}")
+                elif k != "bad":
+                    break
+            if dl[:len(want)] != want:
+                fails.append({"what": "well-formed frames in front of a frame with a corrupt length field were not all delivered "
+                                      "(each once, in order)", "line": line[:1200], "real": r,
+                              "expected": "D[" + ",".join(want) + ",…]", "label": label, "cuts": [len(c) for c in chunks]})
 
     def all_cut_sets(n: int, k: int):
         if k == 1:
